@@ -560,6 +560,13 @@ func ruleTime(c *Ctx) {
 	wantPos := map[string]int{"year": 0, "month": 1, "day": 2, "hour": 3, "min": 4, "sec": 5}
 	okW, okR := true, true
 	var why []string
+	// the two derived fields exist on the writer's side only (os.time ignores them)
+	for n, m := range map[string]string{"wday": "Weekday", "yday": "YearDay"} {
+		if written[n] != m {
+			okW = false
+			why = append(why, fmt.Sprintf("'%s' is written from %q instead of %s() (F93: yday was the constant 0)", n, written[n], m))
+		}
+	}
 	for n, m := range wantMeth {
 		if written[n] != m {
 			okW = false
